@@ -137,6 +137,7 @@ class AnnotationCollection(AbstractFeatureIntervalCollection):
         if start is None and end is None:
             # if we still have nothing, we are empty
             self._location = EmptyLocation()
+            self.start = self.end = None
         else:
             self._initialize_location(start, end, parent_or_seq_chunk_parent)
             self.start = start
@@ -612,6 +613,8 @@ class AnnotationCollection(AbstractFeatureIntervalCollection):
             bounds of the current interval. It could also happen if ``expand_location_to_children`` is ``True``
             and the new expanded range would exceed the range of an associated sequence chunk.
         """
+        if self._location.is_empty:
+            raise InvalidQueryError("Cannot query an empty collection that has no bounds")
         # after bins were decided, we can now force start/end to min/max values
         # for exact checking
         start = self.start if start is None else start
